@@ -7,6 +7,7 @@
       gen_nbPts : list nat,  gen_rules : list (list (Q*Q*Q*Q))   ((l0,l1,l2,w) per node).
    Regenerated on every run.  Anything not recognised is a reported problem (never guessed)."""
 import os, re, sys
+SERVES = ("C16", "C08", "C02", "C03",)   # properties whose check reports this translator's problems (lib/gencoq.py, core.Check.proofs)
 from fractions import Fraction
 sys.path.insert(0, os.path.join(os.path.dirname(os.path.abspath(__file__)), "..", "lib"))
 import gencoq
